@@ -104,6 +104,15 @@ def run(tier, seed):
                     fee = ids[0][1]
                     other = [i[0] for i in ids if i[0] != ids[0][0]][0]
                     pkts = [((bytes(bytearray(r[:2]) + struct.pack("<H", fee) + r[4:]) if r[12] == other else r), p) for r, p in pkts]
+                if sid % 3 == 1 and len(pkts) > 2:
+                    # FEE ids that name no stave of the detector (layer 7, stave number above 47) on packets behind the first: unusual,
+                    # well framed, reported by the RDH check -- and counted like any other in the statistics of what was analysed
+                    odd = rng.choice([0x7005, 0x1030, 0x603F, 0x7000, 0x2035, 0x703F])
+                    first_link = pkts[0][0][12]
+                    victims = [i[0] for i in ids if i[0] != first_link] or [first_link]
+                    vl = rng.choice(victims)
+                    pkts = [((bytes(bytearray(r[:2]) + struct.pack("<H", odd) + r[4:]) if (k > 0 and r[12] == vl) else r), p) for k, (r, p) in enumerate(pkts)]
+                    ids = [i for i in ids if i[0] != vl] or ids
                 # plenty of stop-bit packets spread over the whole stream
                 pkts = [((bytes(bytearray(r[:38]) + bytes([1 if rng.random() < 0.5 else 0]) + r[39:])), p) for r, p in pkts]
             data = scangen.serialize(pkts)
